@@ -61,19 +61,36 @@ def prepare_scratch(groups):
 
 
 def parse_output(out, names):
-    """per-harness status from cargo kani output"""
+    """per-harness status from cargo kani output (sequential or -j: results are tagged `Thread N:`)"""
     res = {}
-    # sections start with "Checking harness <path>..."
-    parts = re.split(r'(?m)^(?:Thread \d+: )?Checking harness ([\w:]+)\.\.\.', out)
-    # parts = [pre, name1, body1, name2, body2...]
-    for i in range(1, len(parts), 2):
-        full = parts[i]
-        body = parts[i + 1]
-        short = full.split('::')[-1]
+    cur = {}          # thread id (or None) -> harness short name
+    bodies = {}       # harness -> text
+    tokens = re.split(r'(?m)^((?:Thread \d+: )?Checking harness [\w:]+\.\.\.|Thread \d+: *$)', out)
+    active = None
+    for tok in tokens:
+        m = re.match(r'(?:Thread (\d+): )?Checking harness ([\w:]+)\.\.\.', tok)
+        if m:
+            th = m.group(1)
+            name = m.group(2).split('::')[-1]
+            cur[th] = name
+            bodies.setdefault(name, '')
+            active = name if th is None else None
+            continue
+        m = re.match(r'Thread (\d+): *$', tok)
+        if m:
+            active = cur.get(m.group(1))
+            continue
+        if active is not None:
+            bodies[active] = bodies.get(active, '') + tok
+    failed_summary = set(x.split('::')[-1] for x in re.findall(r'Verification failed for - ([\w:]+)', out))
+    have_summary = 'Manual Harness Summary' in out or re.search(r'Complete - \d+ successfully verified', out)
+    for short, body in bodies.items():
         st = None
         if 'VERIFICATION:- SUCCESSFUL' in body:
             st = 'ok'
         elif 'VERIFICATION:- FAILED' in body:
+            st = 'fail'
+        if short in failed_summary:
             st = 'fail'
         cov = re.search(r'\*\* (\d+) of (\d+) cover properties satisfied', body)
         fails = re.findall(r'Failed Checks: (.*)', body)
